@@ -260,7 +260,21 @@ func c08ttRun(out *rec.Out, c c08ttCase, seed uint64, stats map[string]int) {
 		returned[i] = make(chan struct{})
 		go func() {
 			defer close(returned[i])
-			tt.Trace.Do(bpmn.DoWithResults(map[string]any{"who": i}))
+			// (a Do call that panics takes the caller down: recorded, the goroutine counts as returned)
+			defer func() {
+				if r := recover(); r != nil {
+					out.Line("dopanic %d %s", i, strings.Join(strings.Fields(fmt.Sprint(r)), "_"))
+					stats["do_calls_that_panicked"]++
+				}
+			}()
+			opts := []bpmn.DoOption{bpmn.DoWithResults(map[string]any{"who": i})}
+			if (i+c.k)%2 == 0 {
+				// every other caller also hands a value to the answer's context (DoWithValue)
+				type c08key struct{}
+				opts = append(opts, bpmn.DoWithValue(c08key{}, i))
+				stats["do_calls_with_context_value"]++
+			}
+			tt.Trace.Do(opts...)
 		}()
 	}
 	isBack := func(i int) bool {
